@@ -148,8 +148,9 @@ def main(argv=None):
             print("replay file has no re-runnable witness (offline checker "
                   "finding); re-run the check itself")
             return 2
-        os.environ.setdefault("GTMON_EVIDENCE_DIR",
-                              tempfile.mkdtemp(prefix="gtmon-replay-"))
+        tmpd = tempfile.mkdtemp(prefix="gtmon-replay-")
+        os.environ.setdefault("GTMON_EVIDENCE_DIR", tmpd)
+        os.environ.setdefault("GTMON_REPLAY_DIR", tmpd)     # never overwrite replays/
         part = run_shard(prop, rp["tier"], rp["seed"], (0, 1), only=only)
         merged = core.merge_partials([part])
         return finish(prop, rp["tier"], rp["seed"], merged, t0, replaying=True)
